@@ -1,0 +1,55 @@
+//go:build verif
+
+package vgirpc
+
+import (
+	"context"
+	"fmt"
+	"reflect"
+)
+
+// VerifRegisterUnaryReflect registers a unary method whose parameter type is
+// only known at run time (for example a reflect.StructOf type). It builds the
+// methodInfo exactly the way the generic Unary does — params schema through
+// paramsSchemaFor, result schema through resultSchema, defaults through
+// extractDefaults — and installs a reflect.MakeFunc handler with the
+// func(context.Context, *CallContext, P) (int64, error) signature that calls fn
+// with the bound parameter struct. Unlike Unary it returns the registration
+// error instead of panicking.
+func VerifRegisterUnaryReflect(s *Server, name string, paramsType reflect.Type,
+	fn func(ctx context.Context, cc *CallContext, params reflect.Value) (int64, error)) error {
+	paramsSchema, err := paramsSchemaFor(reflect.Zero(paramsType).Interface(), paramsType)
+	if err != nil {
+		return fmt.Errorf("invalid params type %v: %w", paramsType, err)
+	}
+	resultType := reflect.TypeOf(int64(0))
+	resSchema, err := resultSchema(resultType)
+	if err != nil {
+		return err
+	}
+	errType := reflect.TypeOf((*error)(nil)).Elem()
+	ft := reflect.FuncOf(
+		[]reflect.Type{reflect.TypeOf((*context.Context)(nil)).Elem(), reflect.TypeOf((*CallContext)(nil)), paramsType},
+		[]reflect.Type{resultType, errType}, false)
+	h := reflect.MakeFunc(ft, func(args []reflect.Value) []reflect.Value {
+		ctx, _ := args[0].Interface().(context.Context)
+		cc, _ := args[1].Interface().(*CallContext)
+		v, herr := fn(ctx, cc, args[2])
+		ev := reflect.Zero(errType)
+		if herr != nil {
+			ev = reflect.ValueOf(&herr).Elem()
+		}
+		return []reflect.Value{reflect.ValueOf(v), ev}
+	})
+	s.methods[name] = &methodInfo{
+		Name:          name,
+		Type:          MethodUnary,
+		ParamsType:    paramsType,
+		ResultType:    resultType,
+		ParamsSchema:  paramsSchema,
+		ResultSchema:  resSchema,
+		Handler:       h,
+		ParamDefaults: extractDefaults(paramsType),
+	}
+	return nil
+}
